@@ -61,6 +61,9 @@ def check(prog, rep):
     rep.stat('accumulators_checked', n_acc)
     _levels(prog, rep)
     _symmetric_objective(prog, rep)
+    # the partition handed back must be the one the optimiser built: label composition across levels (shared with C02)
+    from .C02 import relabel_composition
+    relabel_composition(prog, rep)
     rep.floor('H1.', 11)
     rep.floor('H2.', 11)
     rep.floor('P.paired', 22)
@@ -462,6 +465,9 @@ def variants(root):
     B('break test reversed', 'modularity_louvain_und', 'if q[h] - q[h - 1] < 1e-10:', 'if q[h] - q[h - 1] > 1e-10:', 'L.stop')
     B('symmetrisation removed', 'community_louvain', "    if not np.allclose(B, B.T):\n        # directed input: node moves and q below assume a symmetric objective\n        B = (B + B.T) / 2\n", '', 'S.')
     B('Knm initialised transposed in dir louvain stays flagged', 'modularity_finetune_dir', 'k_o = np.sum(knm_o, axis=1)  # node out-degree', 'k_o = np.sum(knm_o, axis=0)  # node out-degree', 'H') if False else None
+    B('relabel mask aliases labels', 'community_louvain', 'M0 = ci.copy()', 'M0 = ci', 'I.relabel-mask')
+    B('first-level special case removed', 'community_louvain', "        if first_iteration:\n            ci = Mb.copy()\n            first_iteration = False\n        else:\n            for u in range(1, n + 1):\n                ci[M0 == u] = Mb[u - 1]  # assign new modules\n",
+      "        for u in range(1, n + 1):\n            ci[M0 == u] = Mb[u - 1]  # assign new modules\n", 'I.relabel-vector')
     N('gain terms reordered', 'modularity_finetune_und', '(knm[u, :] - knm[u, ma] + W[u, u])', '(W[u, u] + knm[u, :] - knm[u, ma])')
     N('eps spelled differently', 'modularity_finetune_und', 'if max_dq > 1e-10:', 'if max_dq > 1.0e-10:')
     N('null term factored', 'modularity_louvain_und', 'gamma * k[i] * (Km - Km[ma] + k[i]) / s', '(Km - Km[ma] + k[i]) * (gamma * k[i] / s)')
